@@ -61,14 +61,26 @@ int libwifi_parse_deauth(struct libwifi_parsed_deauth *deauth, struct libwifi_fr
                     sizeof(struct libwifi_deauth_fixed_parameters));
     }
 
+    // Fixed Parameters must be present
+    if (frame->len < (frame->header_len + sizeof(struct libwifi_deauth_fixed_parameters))) {
+        return -EINVAL;
+    }
+    tags_len = (int) (frame->len - frame->header_len - sizeof(struct libwifi_deauth_fixed_parameters));
+
     unsigned char *body = (unsigned char *) frame->body;
 
     memcpy(&deauth->fixed_parameters, body, sizeof(struct libwifi_deauth_fixed_parameters));
     body += sizeof(struct libwifi_deauth_fixed_parameters);
 
-    deauth->tags.parameters = malloc(tags_len);
-    memcpy(&deauth->tags.parameters, body, tags_len);
-    memcpy(&deauth->tags.length, &tags_len, sizeof(tags_len));
+    // The tagged parameters are copied into memory owned by the parsed frame
+    if (tags_len > 0) {
+        deauth->tags.parameters = malloc(tags_len);
+        if (deauth->tags.parameters == NULL) {
+            return -ENOMEM;
+        }
+        memcpy(deauth->tags.parameters, body, tags_len);
+        deauth->tags.length = tags_len;
+    }
 
     return 0;
 }
